@@ -633,3 +633,9 @@ Theorem C01_corr_is_isomorphism_check : forall opb g h,
   graph_isob opb g h = true -> exists pi, DocIso (fun a b => opb a b = true) pi g h.
 Proof. exact graph_isob_sound. Qed.
 Print Assumptions C01_corr_is_isomorphism_check.
+(* With the plain operation comparison (CProg, CProg2, and the nested documents of CProg3): the operations of a node
+   and of its image are EQUAL (Leibniz equality of the literals, i.e. of every fact `valid` reads). *)
+Theorem C01_corr_is_isomorphism_check_eq : forall g h,
+  graph_isob (vop_eqb_with N.eqb) g h = true -> exists pi, DocIso eq pi g h.
+Proof. exact graph_isob_eq_sound. Qed.
+Print Assumptions C01_corr_is_isomorphism_check_eq.
